@@ -17,7 +17,7 @@ CONSTANTS
   T = 2
   DNST = 3
   Ticks = {1, 2}
-  MaxNow = 3
+  MaxNow = 2
   MaxDg = 2
   MaxRp = 1
   MaxAssoc = 2
